@@ -428,6 +428,7 @@ AREAS["C17"] = {'area': 'c17',
                  'point times are representable as int64 nanoseconds, tombstones as int32, strings valid UTF-8 (what fits a packet)']}
 
 AREAS["C10"] = {'area': 'c10',
+ 'also_corr': ['C11'],   # Decode / MergePoints are one model: arbitrary batches (C11's inputs) tie it to the code as well
  'id': 10,
  'coq': ['Base', 'Codec', 'Properties/C10.v'],
  'rule': 'seeded generator over 8 flat Go struct types covering scalar / pointer / slice / array / string-keyed map / flat struct / '
